@@ -350,7 +350,8 @@ Section Observe.
     w_base : St;                            (* replay base (U0) *)
     w_gen_root : N; w_gen_commit : N;       (* Engine::snapshot_for_state of the empty frontier *)
     w_hist : list entry;
-    w_strand : option (N * live)            (* live strand whose child worldline this is *)
+    w_strand : option (N * live);           (* live strand whose child worldline this is *)
+    w_cps : list N                          (* worldline ticks (cursor coordinates) of the stored replay checkpoints *)
   }.
 
   Record world := { lines : list (N * wline); gtick : N; queries : list (N * aplan) }.
@@ -510,6 +511,7 @@ Arguments w_gen_root {St P} _.
 Arguments w_gen_commit {St P} _.
 Arguments w_hist {St P} _.
 Arguments w_strand {St P} _.
+Arguments w_cps {St P} _.
 Arguments lines {St P} _.
 Arguments gtick {St P} _.
 Arguments queries {St P} _.
@@ -614,8 +616,32 @@ Inductive optic_result :=
 | OReading (a : artifact)          (* envelope + payload of the bridged observation (ReadIdentity is outside the model) *)
 | OObstructed (k : okind).
 
-(* observe_optic up to (and excluding) the witness-basis derivation, which can only add
-   LiveTailRequiresReduction / MissingWitness obstructions when checkpoints exist *)
+(* LocalProvenanceStore::checkpoint_before: the largest checkpoint tick strictly below [tick] *)
+Definition cp_before (cps : list N) (tick : N) : option N :=
+  fold_left (fun acc c => if c <? tick
+                          then match acc with Some b => if b <? c then Some c else acc | None => Some c end
+                          else acc) cps None.
+
+(* checkpoint_plus_tail_witness_basis, obstruction part: a reading witnessed by a commit whose resolved tick lies
+   above a non-genesis checkpoint needs the tail [checkpoint .. resolved tick - 1] within the tick budget.
+   (The code reads `resolved_worldline_tick` as a cursor coordinate here for frontier AND tick reads.)
+   The tail entries themselves always exist below the resolved coordinate, so MissingWitness is unreachable. *)
+Definition live_tail_check (cps : list N) (max_ticks : option N) (a : artifact) : option okind :=
+  match a_witness a with
+  | WEmpty _ _ _ => None
+  | WCommit _ =>
+      let mat := rs_tick (a_resolved a) in
+      if mat =? 0 then None
+      else match cp_before cps mat with
+           | None => None
+           | Some cp =>
+               if cp =? 0 then None
+               else if (match max_ticks with Some n => n | None => u64_max end) <? (mat - cp)
+                    then Some OLiveTailRequiresReduction else None
+           end
+  end.
+
+(* observe_optic; of the witness-basis derivation only the obstruction is modelled *)
 Definition observe_optic {St P} (W : world St P) (q : optic_request) : optic_result :=
   match optic_budget_check q with
   | Some k => OObstructed k
@@ -627,7 +653,12 @@ Definition observe_optic {St P} (W : world St P) (q : optic_request) : optic_res
           | inl k => OObstructed k
           | inr r =>
               match observe W r with
-              | Reading a => OReading a
+              | Reading a =>
+                  match live_tail_check (match lookupN (r_wl r) (lines W) with Some w => w_cps w | None => [] end)
+                                        (o_max_ticks q) a with
+                  | Some k => OObstructed k
+                  | None => OReading a
+                  end
               | Obstruction e => OObstructed (optic_error_kind e)
               | QueryDelegated _ _ => OObstructed OUnsupportedProjectionLaw   (* unreachable: r is never a query *)
               end
